@@ -10,6 +10,32 @@ class Unsupported(Exception):
     pass
 
 
+def forall(vs, body, patterns=None):
+    """ForAll with patterns when they are valid patterns (selects over lambdas reduce to ite and are not)"""
+    if patterns:
+        ok = []
+        for p in patterns:
+            try:
+                z3.ForAll(vs, z3.BoolVal(True) == z3.BoolVal(True), patterns=[p])
+                q = z3.ForAll(vs, body, patterns=[p])
+                ok.append(p)
+            except z3.Z3Exception:
+                pass
+        if ok:
+            try:
+                return z3.ForAll(vs, body, patterns=ok)
+            except z3.Z3Exception:
+                pass
+    return z3.ForAll(vs, body)
+
+
+def add0(off, i):
+    """off + i, without the arithmetic when off is the literal 0 (keeps quantifier patterns matchable)"""
+    if z3.is_int_value(off) and off.as_long() == 0:
+        return i
+    return off + i
+
+
 class Val:
     """A Go value: its static type key and the flat list of SMT leaves.
     `ptr` carries fat-pointer info for pointer values that are not plain object refs.
@@ -57,6 +83,9 @@ class Model:
         self.Bool = z3.BoolSort()
         self.Real = z3.RealSort()
         self._layout = {}
+        self._canon = {}
+        self._canon_used = {}
+        self._canon_ids = {}
         self._strconst = {}
         self.slen = z3.Function('slen', self.Str, self.Int)
         self.srunes = z3.Function('srunes', self.Str, self.Int)
@@ -134,7 +163,43 @@ class Model:
             return 'bigint'
         if self.is_bigrat(k):
             return 'bigrat'
-        return self.under(k)
+        c = self._canon.get(k)
+        if c is None:
+            t = self.types[k]
+            if t['kind'] == 'named' and self.kind(k) == 'struct':
+                pk = t.get('pkg', '')
+                c = (pk.rsplit('/', 1)[-1] + '.' if pk else '') + t['name']
+                if c in self._canon_used and self._canon_used[c] != k:
+                    c = k
+                self._canon_used[c] = k
+            else:
+                u = self.under(k)
+                c = self._canon.get(u)
+                if c is None:
+                    ut = self.types[u]
+                    if ut['kind'] == 'basic':
+                        c = ut['name']
+                    elif len(u) <= 40:
+                        c = u
+                    else:
+                        c = 'T%d' % len(self._canon_ids)
+                        self._canon_ids[c] = u
+                    self._canon[u] = c
+            self._canon[k] = c
+        return c
+
+    def uncanon(self, c):
+        """type key of a canonical heap type name"""
+        if c in self._canon_used:
+            return self._canon_used[c]
+        if c in self._canon_ids:
+            return self._canon_ids[c]
+        if c in self.types:
+            return c
+        for k, v in self._canon.items():
+            if v == c:
+                return k
+        raise KeyError(c)
 
     def elem(self, k):
         return self.types[self.under(k)]['elem']
